@@ -41,6 +41,7 @@ func ProfileFor(prop, tier string, r *Rng) *Profile {
 		scale(2, KShrink, KReset)
 		scale(0.3, KNewObserver, KMisuse)
 	case "C06":
+		scale(2, KSetRel, KRemoveEntity)
 		scale(5, KAddBatch, KRemoveBatch, KExchangeBatch, KSetRelBatch, KRemoveEntities, KNewBatch, KNewEntities)
 		scale(2, KNewFilter)
 		scale(0.3, KMisuse)
@@ -55,6 +56,11 @@ func ProfileFor(prop, tier string, r *Rng) *Profile {
 		scale(10, KMisuse)
 		p.W[KMatrix] = 0.6
 	case "C11":
+		if r != nil && r.Chance(0.35) {
+			p.BigBatch = true
+			p.MaxEntities = 400
+		}
+		scale(2, KRemoveEntities, KAddBatch, KNewEntities)
 		scale(4, KGC)
 		scale(2, KExchange, KRemove, KRemoveEntity, KReset, KShrink, KNewBatch, KExchangeBatch)
 		scale(0.3, KMisuse, KNewObserver)
